@@ -36,11 +36,69 @@ def gen(seed):
         opt['j'] = rng.randint(2, 3)
     if rng.random() < 0.1:
         opt['progress'] = True
+    if rng.random() < 0.08 and not opt.get('j'):
+        # post-mortem debugging (scripted stdin: 'c'): the first failing test ends the run by
+        # EndRun - its bracket must be closed all the same
+        opt['pm'] = True
     return {'property': ID, 'seed': seed, 'world': world, 'plan': plan, 'opt': opt,
             'sched': {'prng': seed}, 'knobs': {}}
 
 
+def check_brackets_pm(m, res):
+    """-D (post-mortem) mode: the runner brackets test.debug() with startTest/stopTest itself.
+    Occurrence = the testSetUp events since the previous test, test.debug..test.debugged, and the
+    testTearDown events that follow.  Same set / order / mirror rules."""
+    viols = []
+    disc = {d['tid']: d for d in m.discover()}
+    stats = {'occ': 0, 'deco_skip': 0}
+    events = [ev for ev in res.trace if ev[0] == 0 and ev[1] != 'fault']
+    i, n = 0, len(events)
+    ups = []
+    while i < n:
+        ev = events[i]
+        if ev[1] == 'layer.testSetUp':
+            ups.append(ev[2])
+        elif ev[1] == 'test.debug':
+            tid = ev[2]
+            S, ups = ups, []
+            j = i + 1
+            while j < n and not (events[j][1] == 'test.debugged' and events[j][2] == tid):
+                j += 1
+            D = []
+            k = j + 1
+            while k < n and events[k][1] == 'layer.testTearDown':
+                D.append(events[k][2])
+                k += 1
+            d = disc.get(tid)
+            if d is not None:
+                stats['occ'] += 1
+                stack = m.closure(d['layer'])
+                exp_up = {l for l in stack if m.has_hook(l, 'testSetUp')}
+                exp_down = {l for l in stack if m.has_hook(l, 'testTearDown')}
+                where = 'post-mortem mode, test %s: testSetUp=%r testTearDown=%r expected up=%r ' \
+                        'down=%r' % (tid, S, D, sorted(exp_up), sorted(exp_down))
+                if sorted(S) != sorted(exp_up):
+                    viols.append(C.viol('C05/testSetUp-set-wrong/post-mortem', where))
+                elif sorted(D) != sorted(exp_down):
+                    viols.append(C.viol('C05/testTearDown-set-wrong/post-mortem', where))
+                else:
+                    both_s = [x for x in S if x in D]
+                    both_d = [x for x in D if x in S]
+                    bad = both_s != both_d[::-1]
+                    for a_i, a in enumerate(S):
+                        for b in S[a_i + 1:]:
+                            if m.is_base(b, a):
+                                bad = True
+                    if bad:
+                        viols.append(C.viol('C05/order/post-mortem', where))
+            i = k - 1
+        i += 1
+    return viols, stats
+
+
 def check_brackets(m, res):
+    if '-D' in res.options:
+        return check_brackets_pm(m, res)
     viols = []
     disc = {d['tid']: d for d in m.discover()}
     stats = {'occ': 0, 'deco_skip': 0}
@@ -134,7 +192,14 @@ def check_model(m, res):
 def run(spec, ctx):
     src = W.materialise(spec['world'], ctx.scratch)
     m = W.Model(spec['world'])
-    res = core.execute(spec, W.argv(spec['opt'], src))
+    import io
+    import sys
+    old_stdin = sys.stdin
+    sys.stdin = io.StringIO('c\n' * 200)
+    try:
+        res = core.execute(spec, W.argv(spec['opt'], src))
+    finally:
+        sys.stdin = old_stdin
     viols, st = check_brackets(m, res)
     check_model(m, res)
     fired = C.fired_kinds(res.trace)
